@@ -341,9 +341,9 @@ theorem disk_put_stays_in_root (d d' : Disk) (path : Str) (c : Content)
         refine ⟨k, hk, hne, by simp [hp], ?_⟩
         intro x hx
         simp only at hx
-        rcases (mem_addDirs _ _ _).mp hx with h1 | h2
+        rcases (mem_addDirs_iff _ _ _).mp hx with h1 | h2
         · exact Or.inl h1
-        · rw [hkey] at h2; exact Or.inr (mem_ancestors k x h2)
+        · rw [hkey] at h2; exact Or.inr (mem_ancestors_take k x h2)
 
 /-- Archive entries (tar / zip): an entry is written only to a non-empty key of proper names,
     a suffix of its validated name. -/
